@@ -350,6 +350,37 @@ def _wf_m(u, v):
     return 0.9 * u.dot(v)
 
 
+def _decorated_forms():
+    from EasyFEA.FEM import BiLinearForm
+
+    @BiLinearForm
+    def k_form(u, v):
+        return u.grad.dot(v.grad)
+
+    return k_form
+
+
+try:  # module-level decorated form, the way the library's examples and tests write them
+    from EasyFEA.FEM import BiLinearForm as _BLF
+
+    @_BLF
+    def _wf_k_decorated(u, v):
+        return u.grad.dot(v.grad)
+except Exception:  # pragma: no cover
+    _wf_k_decorated = None
+
+
+class WeakFormDecorated(WeakFormScn):
+    """the same static weak form written with the @BiLinearForm decorator at module level (how every example of the library writes it)"""
+    name = "weakforms_decorated"
+
+    def build(self, mesh):
+        from EasyFEA import Models, Simulations
+        from EasyFEA.FEM import Field
+
+        return Simulations.WeakForms(mesh, Models.WeakForms(Field(mesh.groupElem, 1), computeK=_wf_k_decorated))
+
+
 class WeakFormParabolic(WeakFormScn):
     """the same user forms with a capacity form, run with the parabolic scheme (u and its rate are the state)"""
     name = "weakforms_parabolic"
@@ -401,7 +432,7 @@ class WeakFormHyperbolic(WeakFormParabolic):
 
 
 SCENARIOS = {s.name: s for s in (ElasticStatic, ElasticNewmark, ThermalStatic, ThermalParabolic, BeamStatic, BeamNewmark, PhaseFieldHistory,
-                                 PhaseFieldHistoryDamage, InElasticScn, HyperScn, WeakFormScn, WeakFormParabolic, WeakFormHyperbolic, WeakFormMixed)}
+                                 PhaseFieldHistoryDamage, InElasticScn, HyperScn, WeakFormScn, WeakFormParabolic, WeakFormHyperbolic, WeakFormMixed, WeakFormDecorated)}
 
 
 MESH_OPS = ["save", "translate", "rotate", "symmetry", "settag", "partition"]
